@@ -514,46 +514,35 @@ def rule_f(ctx, ix):
     of a bound filter.  When either object dies the subscription has to go: a filter whose object is gone raises (or rejects)
     on the next broadcast, before anything is delivered."""
     R = 'C07.f'
-    ctx.describe(R, 'the clean-up of dead subscriptions looks at every weak reference the container stores with that callback', floor=2)
+    ctx.describe(R, 'the clean-up of dead subscriptions looks at every weak reference the container stores with that callback', floor=1)
     cc = ix.cls('glue.core.hub_callback_container.HubCallbackContainer')
     w, g = cc.resolve_func('_wrap'), cc.resolve_func('_auto_remove')
     if w is None or g is None:
         raise AnalysisError('HubCallbackContainer._wrap / _auto_remove vanished')
-    # positions of the stored tuple that hold weakref.ref(<x>.__self__, self._auto_remove): read off the tuple displays of _wrap
-    pos, base = set(), 0
-    for st in sorted([x for x in walk_no_nested(w.node) if isinstance(x, (ast.Assign, ast.AugAssign)) and isinstance(x.value, ast.Tuple)], key=lambda x: x.lineno):
-        tgt = st.targets[0] if isinstance(st, ast.Assign) else st.target
-        if not isinstance(tgt, ast.Name):
-            continue
-        start = 0 if isinstance(st, ast.Assign) else base
-        for i, e in enumerate(st.value.elts):
-            if isinstance(e, ast.Call) and call_name(e) == 'ref' and len(e.args) == 2 and '_auto_remove' in unparse(e.args[1]):
-                pos.add(start + i)
-        if isinstance(st, ast.AugAssign):
-            base = start + len(st.value.elts) if len(st.value.elts) > 1 else base + len(st.value.elts)
-        else:
-            base = len(st.value.elts)
-    if len(pos) < 2:
-        raise AnalysisError('HubCallbackContainer._wrap: the weak references with the clean-up callback are no longer recognised (%s)' % sorted(pos))
+    # the objects _wrap watches: weakref.ref(<x>.__self__, self._auto_remove)
+    kinds = set()
+    for c in calls_in(w.node):
+        if call_name(c) == 'ref' and len(c.args) == 2 and '_auto_remove' in unparse(c.args[1]) and isinstance(c.args[0], ast.Attribute) \
+                and c.args[0].attr == '__self__':
+            kinds.add(unparse(c.args[0].value))
+    if len(kinds) < 2:
+        raise AnalysisError('HubCallbackContainer._wrap: the weak references with the clean-up callback are no longer recognised (%s)' % sorted(kinds))
     p = g.params[1]
-    seen = set()
+    compared = set()
     for c in ast.walk(g.node):
-        if isinstance(c, ast.Compare) and len(c.ops) == 1 and isinstance(c.ops[0], (ast.Is, ast.IsNot, ast.Eq, ast.NotEq)):
+        if isinstance(c, ast.Compare) and len(c.ops) == 1:
             sides = [c.left, c.comparators[0]]
-            if any(isinstance(x, ast.Name) and x.id == p for x in sides):
-                for x in sides:
-                    if isinstance(x, ast.Subscript) and isinstance(x.slice, ast.Constant) and isinstance(x.slice.value, int):
-                        seen.add(x.slice.value)
-    for c in ast.walk(g.node):
-        # `method_instance in (value[1], value[3])`
-        if isinstance(c, ast.Compare) and len(c.ops) == 1 and isinstance(c.ops[0], (ast.In, ast.NotIn)) and isinstance(c.left, ast.Name) \
-                and c.left.id == p and isinstance(c.comparators[0], (ast.Tuple, ast.List, ast.Set)):
-            for x in c.comparators[0].elts:
-                if isinstance(x, ast.Subscript) and isinstance(x.slice, ast.Constant) and isinstance(x.slice.value, int):
-                    seen.add(x.slice.value)
-    for i in sorted(pos):
-        ctx.ob(R, '%s entry[%d]' % (g.construct, i), 'the dead object is compared with entry[%d] of every subscription' % i, i in seen,
-               detail='HubCallbackContainer._auto_remove never compares the collected object with entry[%d] of the stored subscription, where '
-                      '_wrap keeps a weak reference with this clean-up callback: a subscription whose %s object has been collected stays '
-                      'in the container, and the next broadcast of that message calls a method on None (or keeps calling a dead '
-                      'subscription) before the healthy listeners are served' % (i, 'filter' if i >= 2 else 'handler'), where=g.where)
+            if isinstance(c.ops[0], (ast.Is, ast.IsNot, ast.Eq, ast.NotEq)) and any(isinstance(x, ast.Name) and x.id == p for x in sides):
+                compared |= {unparse(x) for x in sides if not (isinstance(x, ast.Name) and x.id == p)}
+            elif isinstance(c.ops[0], (ast.In, ast.NotIn)) and isinstance(c.left, ast.Name) and c.left.id == p:
+                if isinstance(c.comparators[0], (ast.Tuple, ast.List, ast.Set)):
+                    compared |= {unparse(x) for x in c.comparators[0].elts}
+                elif isinstance(c.comparators[0], ast.Subscript) and isinstance(c.comparators[0].slice, ast.Slice):
+                    compared |= {'%s[slice %d]' % (unparse(c.comparators[0].value), k) for k in range(2)}    # p in value[1:4:2] and the like
+    ctx.idiom(R, g.construct, 'the dead object is compared with the object of the handler and with the object of the filter',
+              accepted=len(compared) >= len(kinds), absent=0 < len(compared) < len(kinds),
+              detail_absent='HubCallbackContainer._auto_remove compares the collected object only with %s, while _wrap watches %d objects per '
+                            'subscription with this clean-up callback (%s): a subscription whose other object has been collected stays in the '
+                            'container, and the next broadcast of that message calls a method on None (or keeps calling a dead subscription) '
+                            'before the healthy listeners are served' % (sorted(compared), len(kinds), ', '.join(sorted(kinds))),
+              shape='no comparison with `%s` found' % p, where=g.where)
